@@ -281,7 +281,7 @@ func c26Extra(r *Run) error {
 		}
 	}
 	r.boundedGoTest("C26-battery", "real Ego programs run in-process with sandboxed I/O: after each one the tree outside the sandbox root is byte-for-byte unchanged and nothing printed carries the content, the size or the name of an outside file",
-		"24 file-touching calls of the os, io and json packages (ReadFile, Stat, Open+Read, WriteFile, Create, Chmod, Remove, RemoveAll, Mkdir, MkdirAll, CreateTemp, io.Open in four modes, io.ReadDir, io.Expand, json.ReadFile/WriteFile) x 7 to 13 spellings of an outside location each (absolute, .., repeated separators, root/.., through a link to a file, through a link to a directory, a dangling link, a dangling directory link, a directory named x..) plus three io.Expand extension arguments: 262 programs, one fixed layout of links")
+		"24 file-touching calls of the os, io and json packages (ReadFile, Stat, Open+Read, WriteFile, Create, Chmod, Remove, RemoveAll, Mkdir, MkdirAll, CreateTemp, io.Open in four modes, io.ReadDir, io.Expand, json.ReadFile/WriteFile) x 7 to 13 spellings of an outside location each (absolute, .., repeated separators, root/.., through a link to a file, through a link to a directory, a dangling link, a dangling directory link, a directory named x..) plus three io.Expand extension arguments, six flag-shadowing programs and the empty name (the process temporary directory lies outside the sandbox): 273 programs, one fixed layout of links")
 	return nil
 }
 
